@@ -51,7 +51,7 @@ var instanceMethods = []string{"Compute", "Report", "IdlePeriod", "Name", "Strin
 func CheckC09(c *Ctx) {
 	run := c.Run
 	run.Technique = "SSA mod-summary analysis (Engine C): for every function, through which parameters / captured variables / package variables memory may be written (stores, map updates, deletes; field-insensitive; allocations, constructor results and channel receives are fresh), propagated to a fixpoint over the CHA call graph; closure-cell ownership lint"
-	run.Explanation = "For every Compute, Report, IdlePeriod, Name and String method of every indicator and strategy type, no store, map update or delete reachable from the method (through static calls, interface calls resolved by class-hierarchy analysis, goroutines and closures) goes through the receiver or anything loaded from it, and none goes to a package-level variable. All remaining state is then allocated per call, which — together with C03's determinacy and linearity rules — makes repeated and concurrent calls on one instance independent: the mechanism the property anchors ('receivers are only read'). Additionally every mutable local captured by a closure that a helper stage runs in its own goroutine is referenced by that one closure only (single owner). The dynamic race detector's view of third-party code is not covered."
+	run.Explanation = "For every Compute, Report, IdlePeriod, Name and String method of every indicator and strategy type, no store, map update or delete reachable from the method (through static calls, interface calls resolved by class-hierarchy analysis, goroutines and closures) goes through the receiver or anything loaded from it, and none goes to a package-level variable. All remaining state is then allocated per call, which — together with C03's determinacy and linearity rules — makes repeated and concurrent calls on one instance independent: the mechanism the property anchors ('receivers are only read'). Objects that travel through the module's channels as pointers (snapshots, results) are written only by the function that allocated them (element-purity: a store into a field of a received, passed-in or captured element is reported). Additionally every mutable local captured by a closure that a helper stage runs in its own goroutine is referenced by that one closure only (single owner). The dynamic race detector's view of third-party code is not covered."
 	run.Trusted = []string{"go/ssa, CHA call graph (golang.org/x/tools v0.29.0)", "freshness of allocations, constructor results and received channel elements", "field-insensitive aliasing (over-approximation)"}
 	ms := c.modsum()
 	run.Count("ssa_functions", len(ms.Funcs))
@@ -147,6 +147,23 @@ func CheckC09(c *Ctx) {
 	run.Count("instance_methods", n)
 	run.Floor("instance_methods", 200)
 	c.closureCells()
+	// elements that travel through the module's channels as pointers are shared by all consumers:
+	// nobody writes into one it did not allocate itself
+	es := ms.ElementStores()
+	run.Count("element_store_scan", 1)
+	for _, e := range es {
+		pos := ms.Pos(e.Pos)
+		if strings.HasSuffix(pos.Filename, "_test.go") {
+			continue
+		}
+		run.Oblige(false)
+		where := e.Fn.String()
+		run.Violate(report.Finding{Rule: "element-purity", Site: where, Detail: e.Type + "." + e.Field, Pos: fmt.Sprintf("%s:%d", strings.TrimPrefix(pos.Filename, c.P.Repo+"/"), pos.Line),
+			Message: fmt.Sprintf("%s stores into field %s of a %s it did not allocate (%s): such objects are sent through the pipelines as pointers and helper.Duplicate hands the same pointer to every branch, so this write races with the readers of the other copies and changes what later computations on the same history see", where, e.Field, e.Type, e.From)})
+	}
+	if len(es) == 0 {
+		c.ok()
+	}
 }
 
 // closureCells: a local variable assigned inside a function literal that is passed to a
